@@ -176,8 +176,16 @@ impl Receiver {
             fdt.1.update_expired_state(now);
         });
 
+        // FDT instances that are not fully received expire like the objects
+        let object_timeout = self.config.object_timeout;
+        let now_instant = Instant::now();
         self.fdt_receivers.retain(|_, fdt| {
             let state = fdt.state();
+            if state == fdtreceiver::FDTState::Receiving {
+                if let Some(timeout) = object_timeout.as_ref() {
+                    return !fdt.is_timeout(now_instant, timeout);
+                }
+            }
             state == fdtreceiver::FDTState::Complete || state == fdtreceiver::FDTState::Receiving
         });
     }
